@@ -16,6 +16,8 @@ taps.install()
 
 import asyncssh   # noqa: E402  (after seams so patched names are used)
 
+CPU_TICK_S = 3
+
 KEYDIR = os.path.join(os.path.dirname(os.path.abspath(__file__)), 'keys')
 
 _key_cache = {}
@@ -97,6 +99,34 @@ class World:
         asyncio.set_event_loop(loop)
 
         from .sim import WorkBudgetExceeded
+        import signal
+        sim = self.sim
+        watch = {'last': -1, 'stuck': 0}
+
+        def on_cpu_tick(_signum, _frame):
+            # a callback that burns CPU without ever returning to the loop
+            # and without emitting a packet (the packet budget cannot see
+            # it).  Measured in process CPU time, not wall time, so machine
+            # load does not matter: a legitimate callback takes milliseconds.
+            if loop.iterations == watch['last']:
+                watch['stuck'] += 1
+            else:
+                watch['last'] = loop.iterations
+                watch['stuck'] = 0
+
+            if watch['stuck'] >= 2 and sim.spin is None:
+                sim.spin = 'one callback has been running for more than ' \
+                    '%d s of CPU time without returning to the event loop ' \
+                    '(loop step %d)' % (2 * CPU_TICK_S, loop.iterations)
+                raise WorkBudgetExceeded(sim.spin)
+
+        old = None
+
+        try:
+            old = signal.signal(signal.SIGVTALRM, on_cpu_tick)
+            signal.setitimer(signal.ITIMER_VIRTUAL, CPU_TICK_S, CPU_TICK_S)
+        except (ValueError, OSError):     # not the main thread
+            old = None
 
         try:
             loop.run_forever()
@@ -104,6 +134,10 @@ class World:
             # deterministic spin detection (see Sim.count_sent_packet)
             loop.capped = True
         finally:
+            if old is not None:
+                signal.setitimer(signal.ITIMER_VIRTUAL, 0, 0)
+                signal.signal(signal.SIGVTALRM, old)
+
             asyncio.set_event_loop(None)
 
         return loop.quiescent and not loop.capped
